@@ -42,6 +42,7 @@ func vFindVerify(key []byte, purpose string, data []byte) bool {
 func VH_C03_handshakeStep() bool {
 	s := vHsSession()
 	hs0 := s.hsIndex
+	n0 := s.nonce
 	hadKey := !s.remoteKey.IsZero()
 	var key0 []byte
 	if hadKey {
@@ -53,6 +54,7 @@ func VH_C03_handshakeStep() bool {
 	isApp, _, err := s.Deliver(nil, pkt, vT(5))
 	hs1 := s.hsIndex
 	vAssert(hs1 >= hs0, "handshake-index-regressed")
+	vAssert(s.nonce >= n0, "send-counter-decreased-a-key-counter-pair-would-be-reused")
 	if err != nil {
 		vCover("rejected")
 		vAssert(hs1 == hs0, "state-advanced-on-error")
@@ -120,11 +122,10 @@ func VH_C06_handshakeIdempotent() bool {
 	return vEqBytes(a, b) && s.hsIndex == hs0 && s.nonce == n0
 }
 
-// verif: replay=none unwind=130 cover=init-0,init-2,resp-0,resp-1 bounds="progress: from each non-final (role, index) the next genuine message, when every stub outcome is 'valid' (no error returned), advances exactly one step and yields the next handshake message to send; old/duplicate/reflected handshake messages leave the state unchanged and are answered with the cached current message"
+// verif: replay=none unwind=130 cover=init-0,init-2,resp-0,resp-1,finished bounds="progress: from each non-final (role, index) the next genuine message, when every stub outcome is 'valid' (no error returned), advances exactly one step and yields the next handshake message to send; old/duplicate/reflected handshake messages leave the state unchanged and are answered with the cached current message"
 func VH_C06_progressAndDuplicates() bool {
 	s := vHsSession()
-	vAssume(s.hsIndex < 4)
-	hs0 := s.hsIndex
+	hs0, n0 := s.hsIndex, s.nonce
 	cur := s.Handshake(nil)
 	nonce := uint32(vInt(0, 3))
 	isApp, out, err := s.Deliver(nil, vPacket(nonce, vBytes(2)), vT(5))
@@ -132,6 +133,10 @@ func VH_C06_progressAndDuplicates() bool {
 	var next uint8
 	var expect uint32
 	switch {
+	case hs0 >= 3 && !(s.isInit && hs0 == 2):
+		// handshake finished from this side's view (or responder waiting only for data): every handshake packet is a duplicate
+		next, expect = hs0, 99
+		vCover("finished")
 	case s.isInit && hs0 == 0:
 		next, expect = 2, nonceRespHello
 		vCover("init-0")
@@ -157,14 +162,14 @@ func VH_C06_progressAndDuplicates() bool {
 		return true
 	}
 	// not the expected message: duplicates, old or reflected messages never change the state
-	vAssert(s.hsIndex == hs0, "unexpected-handshake-message-changed-state")
+	vAssert(s.hsIndex == hs0 && s.nonce == n0, "unexpected-handshake-message-changed-state")
 	if err == nil {
 		vAssert(vEqBytes(out, cur), "duplicate-not-answered-with-current-message")
 	}
 	return true
 }
 
-//verif: replay=none unwind=130 cover=completed-by-data bounds="a session made ready by a data packet (RespDone lost) can send, and its first send uses a counter >= 16 (disjoint from the handshake's counters)"
+// verif: replay=none unwind=130 cover=completed-by-data bounds="a session made ready by a data packet (RespDone lost) can send, and its first send uses a counter >= 16 (disjoint from the handshake's counters)"
 func VH_C06_completedByDataCanSend() bool {
 	s := vHsSession()
 	vAssume(!s.IsReady())
